@@ -28,9 +28,10 @@ RULE = ("random system bounds/zone x 1-5 proposals with distinct priorities bias
 REQUIRED_BUCKETS = ["pool-handle-tier(proposals as BatteryPool.propose_* builds them)", "conflict-free-set", "zone-present", "no-zone", "narrowed-by-higher-priority",
                     "probe-adopted", "probe-rejected", "probe-in-zone", "null-proposal-added", "two-candidates",
                     "update-prefers-the-previous-target", "second-component-set-evaluated-last",
-                    "same-source-id-at-two-priorities"]
+                    "same-source-id-at-two-priorities", "history:system-bounds-moved", "history:proposals-expired",
+                    "history:a-higher-priority-proposal-expired"]
 REQUIRED_COUNTERS = ["targets_vs_reference", "adoption_probes", "adjust_to_bounds_probes", "null_proposal_checks",
-                     "update_steps_checked"]
+                     "update_steps_checked", "history_steps_checked"]
 ASSUMPTIONS = ["reference model vf/pm.reference encodes the statement; conflicting sets are left to C03"]
 
 
@@ -141,6 +142,14 @@ def check(case: dict[str, Any], rec: Any) -> None:
             break
         t_prev = sw
 
+    # (5) the life of ONE manager object, driven the way the power-managing actor drives it: proposals arrive and are
+    # refreshed, the system bounds move (a bounds sample: proposal None, must_return_power False), old proposals
+    # expire (drop_old_proposals on the actor's timer), and after every event a status is produced for every actor.
+    # Whatever happened before, the stored target and the reported bounds are those of the *current* proposal set
+    # under the *current* system bounds - i.e. what a fresh object fed with exactly that set says.
+    if not ties:
+        _history(case, props, sys, excl, rec, ur)
+
     # (3) a proposal with neither power nor bounds is equivalent to no proposal
     prios = sorted({p["prio"] for p in props})
     for slot in {prios[0] - 1, prios[-1] + 1, prios[len(prios) // 2]}:
@@ -213,6 +222,88 @@ def check(case: dict[str, Any], rec: Any) -> None:
                               {**w, "adjust_to_bounds": [None if a is None else a.as_watts() for a in adj]})
     rec.nontrivial(n_pref >= 2 or narrowed)
     rec.observed({"target": t, "reference_candidates": sorted(ref["candidates"])})
+
+
+def _history(case: dict[str, Any], props: list[dict[str, Any]], sys: list[float], excl: list[float], rec: Any, ur: Any) -> None:
+    MAXAGE = 60.0
+    now = 0.0
+    cur = [dict(p, t=ur.choice([0.0, 0.0, 20.0, 40.0])) for p in props]
+    cur.sort(key=lambda q: q["t"])
+    sys_cur, excl_cur = list(sys), list(excl)
+    sb_cur = pm.mk_sysbounds(sys_cur, excl_cur)
+    mh = pm.new_matryoshka(MAXAGE)
+    for q in cur:
+        mh.calculate_target_power(pm.CID, pm.mk_proposal(q), sb_cur, False)
+    now = max(q["t"] for q in cur)
+    trail: list[Any] = []
+
+    def statuses() -> None:
+        for q in cur:
+            mh.get_status(pm.CID, q["prio"], sb_cur)
+
+    statuses()
+    for _ in range(ur.choice([2, 3, 4, 5])):
+        kind = ur.choice(["bounds", "bounds", "expire", "expire", "refresh", "update"])
+        if kind == "bounds":
+            f = ur.choice([0.5, 2.0, 1.0])
+            sys_cur = [min(sys[0] * f, 0.0) if ur.random() < 0.7 else sys_cur[0], max(sys[1] * f, 0.0) if ur.random() < 0.7 else sys_cur[1]]
+            if ur.random() < 0.3:
+                excl_cur = ur.choice([[0.0, 0.0], [-10.0, 10.0], list(excl)])
+            sb_cur = pm.mk_sysbounds(sys_cur, excl_cur)
+            now += 1.0
+            mh.calculate_target_power(pm.CID, None, sb_cur, False)
+            rec.bucket("history:system-bounds-moved")
+        elif kind == "expire":
+            oldest = min(q["t"] for q in cur)
+            now = max(now, oldest + MAXAGE + 0.5)
+            mh.drop_old_proposals(now)
+            gone = [q for q in cur if now - q["t"] > MAXAGE]
+            cur = [q for q in cur if now - q["t"] <= MAXAGE]
+            if not cur:
+                break
+            rec.bucket("history:proposals-expired")
+            if any(g["prio"] > min(q["prio"] for q in cur) for g in gone):
+                rec.bucket("history:a-higher-priority-proposal-expired")
+        elif kind == "refresh":
+            now += ur.choice([5.0, 30.0])
+            i = ur.randrange(len(cur))
+            cur[i] = dict(cur[i], t=now)
+            mh.calculate_target_power(pm.CID, pm.mk_proposal(cur[i]), sb_cur, False)
+        else:
+            now += 1.0
+            i = ur.randrange(len(cur))
+            cur[i] = dict(cur[i], t=now, pref=ur.choice([None, ur.choice(pm.VALS)]))
+            mh.calculate_target_power(pm.CID, pm.mk_proposal(cur[i]), sb_cur, False)
+        trail.append({"step": kind, "now": now, "sys": list(sys_cur), "excl": list(excl_cur)})
+        ref = pm.reference(cur, sys_cur[0], sys_cur[1], excl_cur[0], excl_cur[1])
+        if ref is None:
+            return  # the history left the conflict-free domain
+        rec.count("history_steps_checked")
+        # reported bounds, right after the event (the actor sends its reports after every event)
+        fresh = _feed(cur, sb_cur)
+        for q in cur:
+            b1 = mh.get_status(pm.CID, q["prio"], sb_cur).bounds
+            b2 = fresh.get_status(pm.CID, q["prio"], sb_cur).bounds
+            u1 = pm.carve(b1.lower.as_watts(), b1.upper.as_watts(), excl_cur[0], excl_cur[1])
+            u2 = pm.carve(b2.lower.as_watts(), b2.upper.as_watts(), excl_cur[0], excl_cur[1])
+            if u1 != u2:
+                rec.violation("reported-bounds-depend-on-the-history-of-the-manager-object",
+                              {"actor": q["src"], "priority": q["prio"], "reported": [b1.lower.as_watts(), b1.upper.as_watts()],
+                               "a_fresh_object_with_the_same_proposals_reports": [b2.lower.as_watts(), b2.upper.as_watts()],
+                               "live_proposals": cur, "history": trail})
+                return
+        if kind == "expire":
+            # an expiry alone does not recalculate (the next event does): the next bounds sample arrives within a second
+            now += 1.0
+            mh.calculate_target_power(pm.CID, None, sb_cur, False)
+        stored = mh.get_target_power(pm.CID)
+        sw = None if stored is None else stored.as_watts()
+        if sw is None or not any(abs(sw - c) <= 1e-6 for c in ref["candidates"]):
+            rec.violation("stored-target-depends-on-the-history-of-the-manager-object",
+                          {"stored_target": sw, "reference_candidates": sorted(ref["candidates"]), "live_proposals": cur,
+                           "history": trail})
+            return
+        statuses()
 
 
 FINDINGS: dict[str, Any] = {}
